@@ -162,7 +162,7 @@ def _c02_dispatcher(tier, seed):
             "assumptions": props_dq.ASSUME}
 
 
-COMPOSITE = {"C10": [_c10_plan, _c10_lists], "C16": [props_dq.c16, props_het.c16h]}
+COMPOSITE = {"C10": [_c10_plan, _c10_lists], "C16": [props_dq.c16, props_het.c16h], "C12": [props_dq.c12, props_het.c12h]}
 COMPOSITE["C02"] = [lambda tier, seed: props_cl.c02(tier, seed), _c02_dispatcher]
 def _c08_lists(tier, seed):
     quick = tier == "quick"
